@@ -3,7 +3,7 @@ ID = "C19"
 PROP = {
     "level": "exploration",
     "engine": "py-hypothesis-harness",
-    "rule": ("(1) histories of up to 50 steps {call(outcome in ok / gateway error header / gateway connection error / application exception, "
+    "rule": ("(1) histories of up to 50 steps {call(outcome in ok / gateway error header / gateway connection error (raised as a class a hook registered or as a subclass of it, two levels deep) / application exception, "
              "destination allowed or filtered, call duration), advance(delta: absolute, cool-down +-{0, .125, .25, .5, 1}s, or to the expiry instant "
              "+-{0, .125, .25, 1}s), read of state_ok} against the real FailSafe built from the environment variables "
              "(threshold 1-5, cool-down 1-10 s) and used exactly like hooks/requests.py uses it; (2) the same histories issued as "
